@@ -124,6 +124,9 @@ func crashFound(tmp, bin string, part partCfg, tier string, seed uint64, o worke
 	}
 	again := rerun(tmp, bin, part, rf)
 	i := strings.Index(again.stderr, "panic: ")
+	if j := strings.Index(again.stderr, "fatal error: "); j >= 0 && (i < 0 || j < i) {
+		i = j // e.g. "fatal error: sync: Unlock of unlocked RWMutex": not recoverable in-process
+	}
 	if again.res != nil || i < 0 || !strings.Contains(again.stderr, "midi/v2") {
 		return nil
 	}
@@ -183,4 +186,19 @@ func shrinkDead(tmp, bin string, part partCfg, rf core.ReplayFile, last workerOu
 		}
 	}
 	return rf, last, from
+}
+
+// initCrash recognises a worker that died while the driver package initialised itself
+// against the (valid) simulated helper: no scenario is involved.
+func initCrash(o workerOut) *core.Found {
+	i := strings.Index(o.stderr, "panic: ")
+	if o.res != nil || i < 0 || !(strings.Contains(o.stderr, "midicatdrv.init") || strings.Contains(o.stderr, "checkMIDICAT")) {
+		return nil
+	}
+	msg := o.stderr[i:]
+	line := msg
+	if j := strings.IndexByte(line, '\n'); j > 0 {
+		line = line[:j]
+	}
+	return &core.Found{Violation: core.Violation{Clause: "crash", Key: "driver-init", Detail: "the driver package panics while initialising against a helper that reports a supported version: " + core.Trunc(msg, 1200)}, Scenario: []byte(`{"sched_seed":0}`)}
 }
